@@ -48,7 +48,7 @@ class ErrorHandling:
             else:
                 line = line.ljust(token.index)
 
-            line += token.value
+            line += self.source_text(token)
             lines_idx[token.lineno] = line
 
         msgs = []
@@ -62,7 +62,7 @@ class ErrorHandling:
             error_index = len(lines_idx[error_line_num])
         else:
             msgs.append('Syntax error, unknown input:')
-            error_len = len(self.bad_token.value)
+            error_len = len(self.source_text(self.bad_token))
             error_line_num = self.bad_token.lineno
             error_index = self.bad_token.index
 
@@ -87,6 +87,11 @@ class ErrorHandling:
         # error position
         msgs.append('-' * (error_index + 1) + '^' * error_len)
         return msgs
+
+    @staticmethod
+    def source_text(token):
+        # the text of the token as it is written in the query (values of strings and variables are decoded)
+        return getattr(token.value, 'raw', None) or token.value
 
     def make_suggestion(self):
         if len(self.expected_tokens) == 0:
